@@ -155,6 +155,10 @@ func GenLimits(t *rapid.T, maxDepth int) LimSpec {
 	case 3:
 		l.Mode = "nodes"
 		l.Nodes = rapid.IntRange(1, 20000).Draw(t, "nodes")
+		// tiny budgets stop the search inside its first iteration
+		if rapid.IntRange(0, 2).Draw(t, "tinyNodes") == 0 {
+			l.Nodes = rapid.IntRange(1, 40).Draw(t, "nodesTiny")
+		}
 	case 4:
 		l.Mode = "movetime"
 		l.MoveTime = rapid.IntRange(5, 60).Draw(t, "movetime")
@@ -171,6 +175,9 @@ func GenLimits(t *rapid.T, maxDepth int) LimSpec {
 	case 6:
 		l.Mode = "infinite"
 		l.StopAfterMs = rapid.IntRange(0, 40).Draw(t, "stopAfter")
+		if rapid.IntRange(0, 2).Draw(t, "stopAtOnce") == 0 {
+			l.StopAfterMs = 0
+		}
 		if rapid.Bool().Draw(t, "plusDepth") {
 			l.Depth = rapid.IntRange(1, maxDepth).Draw(t, "depth")
 		}
